@@ -285,6 +285,8 @@ impl HeaderMetadataSpec {
                     self.set_bits_to_u8(real_old_byte, old_metadata.to_u8().unwrap());
                 let expected_new_byte =
                     self.set_bits_to_u8(expected_old_byte, new_metadata.to_u8().unwrap());
+                #[cfg(mmtk_verif)]
+                crate::verif::sync_point("meta.cas.window", 0);
                 byte_addr
                     .compare_exchange::<AtomicU8>(
                         expected_old_byte,
